@@ -11,7 +11,7 @@ import z3
 
 Z3_QUICK_MS = int(os.environ.get('PYVC_Z3_QUICK_MS', '2000'))
 Z3_TIMEOUT_MS = int(os.environ.get('PYVC_Z3_TIMEOUT_MS', '20000'))
-CVC5_TIMEOUT_S = int(os.environ.get('PYVC_CVC5_TIMEOUT_S', '10'))
+CVC5_TIMEOUT_S = int(os.environ.get('PYVC_CVC5_TIMEOUT_S', '40'))
 Z3NEW_TIMEOUT_S = int(os.environ.get('PYVC_Z3NEW_TIMEOUT_S', '30'))
 NPROC = int(os.environ.get('PYVC_NPROC', '14'))
 
